@@ -12,6 +12,7 @@ mod process;
 mod smoke;
 mod streams;
 mod timers;
+mod ws;
 
 use simcore::worker::Scenario;
 
@@ -39,5 +40,6 @@ fn main() {
     scenarios.extend(process::scenarios());
     scenarios.extend(streams::scenarios());
     scenarios.extend(timers::scenarios());
+    scenarios.extend(ws::scenarios());
     simcore::worker::main(&scenarios)
 }
